@@ -4,6 +4,7 @@ when it talks to the services directly) and the invariants of the bridge's
 routing state used by Props/C18.
 -/
 import VarlinkVerif.Model.Proxy
+import VarlinkVerif.Model.ProxyFixed
 import VarlinkVerif.Props.C04
 
 namespace VV
@@ -196,6 +197,241 @@ theorem copyLoop_eq_flatten (l : List Bytes) : copyLoop l = l.flatten := by
   induction l with
   | nil => rfl
   | cons c cs ih => simp [copyLoop, ih]
+
+end Proxy
+end VV
+
+/-! ### the patched router (Model.ProxyFixed) -/
+
+namespace VV
+namespace Proxy
+
+/-- hypotheses of `C18_transparent_after_patches` for one request: nothing about dots,
+    resolution or reachability any more — only that a `GetInterfaceDescription` is
+    well typed when it has parameters, that the interface name is not empty, and
+    that a service that *is* reached answers properly and keeps the connection -/
+def GoodFixed (w : World) (ra : String) (r0 : Request) : Prop :=
+  match selectIface (rewrite r0) with
+  | .noDot => True
+  | .badArgs => (rewrite r0).parameters = none
+  | .iface i =>
+    i ≠ "" ∧
+    ∀ a svc, resolveAddr w ra 0 i = some a → w.svcAt a = some svc →
+      (rewrite r0).upgrade ≠ some true ∧
+      (callOne w.consts svc (rewrite r0)).ok = true ∧
+      (callOne w.consts svc (rewrite r0)).upgraded = none ∧
+      (isOneway (rewrite r0) = true ∨ Final (callOne w.consts svc (rewrite r0)).out)
+
+def CoherentFixed (w : World) (ra : String) (st : St) : Prop :=
+  st.lastIface = "" ∨ resolveAddr w ra 0 st.lastIface = some st.address
+
+theorem routeFixed_spec (w : World) (hs : StaticResolver w) (ra : String) (st : St)
+    (hc : CoherentFixed w ra st) (i : String) (hne : i ≠ "") :
+    (routeFixed w ra st i).1 = resolveAddr w ra 0 i ∧ CoherentFixed w ra (routeFixed w ra st i).2 := by
+  unfold routeFixed
+  by_cases h1 : (i == st.lastIface) = true
+  · have e : i = st.lastIface := by simpa using h1
+    rw [if_pos h1]
+    rcases hc with h0 | h0
+    · exact absurd (e.trans h0) hne
+    · exact ⟨by rw [e, h0], Or.inr h0⟩
+  · rw [if_neg h1]
+    by_cases h2 : (i == resolverIfaceName) = true
+    · rw [if_pos h2]
+      have hr : resolveAddr w ra 0 i = some ra := by unfold resolveAddr; rw [if_pos h2]
+      exact ⟨hr.symm, Or.inr hr⟩
+    · rw [if_neg h2]
+      have hr : resolveAddr w ra 0 i = w.resolve st.nResolve i := by
+        unfold resolveAddr; rw [if_neg h2]; exact hs 0 st.nResolve i
+      cases hres : w.resolve st.nResolve i with
+      | none =>
+        refine ⟨by rw [hr, hres], ?_⟩
+        rcases hc with h0 | h0
+        · exact Or.inl h0
+        · exact Or.inr h0
+      | some a =>
+        refine ⟨by rw [hr, hres], Or.inr ?_⟩
+        show resolveAddr w ra 0 i = some a
+        rw [hr, hres]
+
+/-- one request through the patched loop is one step of the specification -/
+theorem stepFixed_good (w : World) (hs : StaticResolver w) (ra : String) (st : St)
+    (hc : CoherentFixed w ra st) (r0 : Request) (hg : GoodFixed w ra r0) (k : Nat) (rs : List Request) :
+    ∃ out st' sent, stepFixed w ra st r0 = .next out st' sent ∧ CoherentFixed w ra st' ∧
+      ∃ k', idealRun w ra k [] (r0 :: rs) = out :: idealRun w ra k' [] rs := by
+  unfold GoodFixed at hg
+  unfold stepFixed
+  cases hsel : selectIface (rewrite r0) with
+  | noDot =>
+    refine ⟨localReply (rewrite r0) (errInterfaceNotFound (rewrite r0).method), st, [], ?_, hc, k, ?_⟩
+    · simp only [hsel]
+    · simp [idealRun, hsel]
+  | badArgs =>
+    rw [hsel] at hg
+    simp only at hg
+    refine ⟨localReply (rewrite r0) (errInvalidParameter "parameters"), st, [], ?_, hc, k, ?_⟩
+    · simp [hsel, hg]
+    · simp [idealRun, hsel, hg]
+  | iface i =>
+    rw [hsel] at hg
+    obtain ⟨hne, hsvc⟩ := hg
+    obtain ⟨hr1, hr2⟩ := routeFixed_spec w hs ra st hc i hne
+    have hk : resolveAddr w ra k i = resolveAddr w ra 0 i := resolveAddr_static w hs ra k i
+    cases hrf : routeFixed w ra st i with
+    | mk oa st' =>
+      rw [hrf] at hr1 hr2
+      simp only at hr1 hr2
+      cases oa with
+      | none =>
+        refine ⟨localReply (rewrite r0) (errInterfaceNotFound i), st', [], ?_, hr2, k + 1, ?_⟩
+        · simp only [hsel, hrf]
+        · simp [idealRun, hsel, hk, ← hr1]
+      | some a =>
+        cases hs' : w.svcAt a with
+        | none =>
+          refine ⟨localReply (rewrite r0) (errInterfaceNotFound i), st', [], ?_, hr2, k + 1, ?_⟩
+          · simp only [hsel, hrf, hs']
+          · simp [idealRun, hsel, hk, ← hr1, hs']
+        | some svc =>
+          obtain ⟨hup, hok, hnu, hfin⟩ := hsvc a svc hr1.symm hs'
+          have hideal : idealRun w ra k [] (r0 :: rs) =
+              (callOne w.consts svc (rewrite r0)).out :: idealRun w ra (k + 1) [] rs := by
+            simp [idealRun, hsel, hk, ← hr1, hs', hok, hnu]
+          by_cases how : isOneway (rewrite r0) = true
+          · refine ⟨[], st', [(a, rewrite r0)], ?_, hr2, k + 1, ?_⟩
+            · simp only [hsel, hrf, hs', how, if_true]
+            · rw [hideal, C04_no_reply_for_oneway w.consts svc (rewrite r0) how]
+          · have hfin' : forwardReplies (callOne w.consts svc (rewrite r0)).out =
+                ((callOne w.consts svc (rewrite r0)).out, true) := by
+              rcases hfin with h | h
+              · exact absurd h how
+              · exact h
+            have h2 : ((rewrite r0).upgrade == some true) = false := by
+              cases hu : (rewrite r0).upgrade with
+              | none => rfl
+              | some b => cases b with
+                | false => rfl
+                | true => exact absurd hu hup
+            refine ⟨(callOne w.consts svc (rewrite r0)).out, st', [(a, rewrite r0)], ?_, hr2, k + 1, hideal⟩
+            simp only [hsel, hrf, hs']
+            simp [how, hok, h2, hfin']
+
+theorem runFixed_good (w : World) (hs : StaticResolver w) (ra : String) :
+    ∀ (rs : List Request) (st : St) (k : Nat), CoherentFixed w ra st → (∀ r ∈ rs, GoodFixed w ra r) →
+      (runFixed w ra st (rs.map .req)).status = .eof ∧
+      (runFixed w ra st (rs.map .req)).groups = idealRun w ra k [] rs := by
+  intro rs
+  induction rs with
+  | nil => intro st k _ _; simp [runFixed, idealRun]
+  | cons r rs ih =>
+    intro st k hc hg
+    obtain ⟨out, st', sent, hstep, hc', k', hideal⟩ :=
+      stepFixed_good w hs ra st hc r (hg r (by simp)) k rs
+    have := ih st' k' hc' (fun x hx => hg x (by simp [hx]))
+    simp only [List.map_cons, runFixed, hstep]
+    exact ⟨this.1, by rw [hideal, this.2]⟩
+
+end Proxy
+end VV
+
+/-! ### the byte-level loop refines `run` on the frames of the stream -/
+
+namespace VV
+namespace Proxy
+
+theorem clientFrames_eq (dec : Bytes → Frame) (total : Bytes) :
+    clientFrames dec total =
+      match splitNul total with
+      | none => if total = [] then [] else [dec total.dropLast]
+      | some (pre, post) => dec pre :: clientFrames dec post := by
+  unfold clientFrames
+  rw [frames_eq]
+  cases splitNul total with
+  | none => simp
+  | some pq => simp
+
+theorem run_single_next (w : World) (st st' : St) (r : Request) (out : List Reply) (sent : List (String × Request))
+    (h : step w st r = .next out st' sent) :
+    (run w st [.req r]).groups = [out] ∧ (run w st [.req r]).sent = sent ∧ (run w st [.req r]).status = .eof := by
+  simp [run, h]
+
+theorem bridgeLoop_spec (w : World) (dec : Bytes → Frame) :
+    ∀ (fuel : Nat) (st : St) (rd : Rd), NoEmpty rd.reads →
+      (rd.buf ++ rd.reads.flatten).length < fuel →
+      let total := rd.buf ++ rd.reads.flatten
+      let o := run w st (clientFrames dec total)
+      let b := bridgeLoop w dec fuel st rd
+      b.groups = o.groups ∧ b.sent = o.sent ∧ b.status = o.status ∧
+      (∀ a i, o.status = .upgraded a i → b.buffered ++ b.rest.flatten = afterFrames o.consumed total) := by
+  intro fuel
+  induction fuel with
+  | zero => intro st rd _ hlt; simp at hlt
+  | succ fuel ih =>
+    intro st rd hne hlt
+    have hsp := readUntil_spec rd.reads hne rd.buf []
+    simp only
+    rw [clientFrames_eq]
+    unfold bridgeLoop
+    cases hs : splitNul (rd.buf ++ rd.reads.flatten) with
+    | none =>
+      rw [hs] at hsp
+      simp only at hsp
+      rw [hsp]
+      simp only [List.nil_append]
+      by_cases he : rd.buf ++ rd.reads.flatten = []
+      · simp [he, run]
+      · simp only [he, if_false]
+        cases hd : dec (rd.buf ++ rd.reads.flatten).dropLast with
+        | bad => simp [run]
+        | req r =>
+          cases hst : step w st r with
+          | stop out status sent =>
+            simp only [run, hst]
+            refine ⟨by simp, by simp, by simp, ?_⟩
+            intro a i hu
+            simp [afterFrames, hs]
+          | next out st' sent =>
+            simp only [run, hst]
+            refine ⟨by simp, by simp, by simp, ?_⟩
+            intro a i hu
+            cases hu
+    | some pq =>
+      obtain ⟨pre, post⟩ := pq
+      rw [hs] at hsp
+      obtain ⟨rd', e1, e2, e3⟩ := hsp
+      rw [e1]
+      simp only [List.nil_append]
+      have hlen := splitNul_length hs
+      cases hd : dec pre with
+      | bad => simp [run]
+      | req r =>
+        cases hst : step w st r with
+        | stop out status sent =>
+          simp only [run, hst]
+          refine ⟨by simp, by simp, by simp, ?_⟩
+          intro a i _
+          simp [afterFrames, hs, e2]
+        | next out st' sent =>
+          have hlt' : (rd'.buf ++ rd'.reads.flatten).length < fuel := by
+            rw [e2]; omega
+          have := ih st' rd' e3 hlt'
+          simp only [e2] at this
+          obtain ⟨g, sn, stt, t3⟩ := this
+          simp only [run, hst]
+          refine ⟨by simp [g], by simp [sn], by simp [stt], ?_⟩
+          intro a i he
+          have := t3 a i he
+          simp only [afterFrames, hs]
+          simpa using this
+
+theorem bridge_spec (w : World) (dec : Bytes → Frame) (reads : List Bytes) (hne : NoEmpty reads) :
+    let total := reads.flatten
+    let o := run w {} (clientFrames dec total)
+    let b := bridge w dec reads
+    b.groups = o.groups ∧ b.sent = o.sent ∧ b.status = o.status ∧
+    (∀ a i, o.status = .upgraded a i → b.buffered ++ b.rest.flatten = afterFrames o.consumed total) := by
+  have := bridgeLoop_spec w dec (totalLen reads + 1) {} { buf := [], reads := reads } hne (by simp [totalLen])
+  simpa [bridge] using this
 
 end Proxy
 end VV
